@@ -81,3 +81,7 @@ for _k, _groups in _GOLITE.items():
             "the Go decision functions are regenerated into coq/gen/GoLiteFuns.v on every run and %s proves for ALL arguments: %s; a construct outside the fragment is emitted as SUnknown/EUnknown, on which the evaluator fails" % (_file, _what)]
         _e.setdefault("golite", []).append({"lemmas_file": _file, "what": _what})
     _e["technique"] = _e.get("technique", "") + "; decision functions translated from the Go source on every run (go/ast -> deep-embedded Gallina AST) and proved equal to the model's predicates"
+
+# property files that state theorems over the translated code need the translation's files built with them
+for _k, _extra in {"C10": ["Model/GoLite.v", "Check/GoLiteTactics.v", "Check/GoLiteQueue.v", "Proofs/GoLiteQueueRefine.v"]}.items():
+    REGISTRY[_k]["coq_files"] = list(REGISTRY[_k].get("coq_files", [])) + [f for f in _extra if f not in REGISTRY[_k].get("coq_files", [])]
